@@ -554,6 +554,12 @@ bool QXmppStunMessage::decode(const QByteArray &buffer, const QByteArray &key, Q
         stream >> a_length;
         const int pad_length = 4 * ((a_length + 3) / 4) - a_length;
 
+        // the attribute, including its padding, must lie within the message
+        if (4 + a_length + pad_length > length - done) {
+            *errors << u"Received a STUN packet with a truncated attribute"_s;
+            return false;
+        }
+
         // only FINGERPRINT is allowed after MESSAGE-INTEGRITY
         if (after_integrity && a_type != Fingerprint) {
             *errors << u"Skipping attribute %1 after MESSAGE-INTEGRITY"_s.arg(QString::number(a_type));
